@@ -30,6 +30,8 @@ def configs(tier):
         out.append({"n": n, "grant": "refresh", "has_cb": True, "outcomes": ["success"], "stream": False, "resp": "no-expiry"})
         out.append({"n": n, "grant": "client_credentials", "has_cb": True, "outcomes": ["success"], "stream": n == 3, "resp": "no-expiry"})
         out.append({"n": n, "grant": "refresh", "has_cb": True, "outcomes": ["success"], "stream": n == 3, "clock": "fraction"})
+        out.append({"n": n, "grant": "refresh", "has_cb": True, "outcomes": ["success"], "stream": n == 3, "leeway": 300})
+        out.append({"n": n, "grant": "client_credentials", "has_cb": n == 2, "outcomes": ["success"], "stream": False, "leeway": 3600})
     return out
 
 
